@@ -383,13 +383,6 @@ pub fn c16(out: &mut Out, rng: &mut Rng, tier: &Tier) {
             text_case(out, &s);
         }
     }
-    let nu_cases = if tier.thorough { 3000 } else { 160 };
-    for i in 0..nu_cases {
-        let s = rand_text(rng, 1 + i % 70, true);
-        if mine(&mut idx) {
-            text_case(out, &s);
-        }
-    }
     if tier.shard == 0 {
         for s in ["", "N", "NNN", "A", "aN", "Na", "ACGTNNACGT", "\u{e9}", "AC\u{e9}GT", "\u{1F600}ACGT\u{1F600}"] {
             text_case(out, s);
@@ -410,6 +403,14 @@ pub fn c16(out: &mut Out, rng: &mut Rng, tier: &Tier) {
         if mine(&mut idx) {
             let mut local = Rng::new(seed);
             hashn_case(out, &mut local, &s, &name);
+        }
+    }
+    // 6. text with non-ASCII characters (last: while finding F6 is open these cases fill the report quota)
+    let nu_cases = if tier.thorough { 3000 } else { 160 };
+    for i in 0..nu_cases {
+        let s = rand_text(rng, 1 + i % 70, true);
+        if mine(&mut idx) {
+            text_case(out, &s);
         }
     }
 }
